@@ -81,7 +81,9 @@ theorem setter_error_class (c : Claims) (op : SetOp) (m : ErrMask) (h : (applySe
   | bootSeed b =>
     simp only [applySet] at h
     cases hp : c.prof <;> simp only [hp] at h <;> split at h <;> simp at h <;> exact Or.inl h.symm
-  | certRef s => simp only [applySet] at h; split at h <;> simp at h; exact Or.inl h.symm
+  | certRef s =>
+    simp only [applySet] at h
+    cases hp : c.prof <;> simp only [hp] at h <;> split at h <;> simp at h <;> exact Or.inl h.symm
   | sw l =>
     simp only [applySet, replaceVals] at h
     cases hp : c.prof <;> simp only [hp] at h
